@@ -194,13 +194,13 @@ func (s *server) rawGet(p string, accepts []string) rawResp {
 // request Find built is sent with the scenario's path and Accept headers instead (when
 // rewrite is set), and the response Find is given is recorded.
 type rewriteTransport struct {
-	base    http.RoundTripper
-	rewrite bool
-	path    string
-	accepts []string
-	last    rawResp
+	base       http.RoundTripper
+	rewrite    bool
+	path       string
+	accepts    []string
+	last       rawResp
 	sentAccept []string
-	sentCT  string
+	sentCT     string
 }
 
 func (t *rewriteTransport) RoundTrip(req *http.Request) (*http.Response, error) {
